@@ -4,8 +4,10 @@ Part 1 (model checking of the encoder, CPython's decoder is the reference implem
 `LineTable.build_line_table(positions, firstlineno)` of the working tree for ALL start-sorted position
 lists of length 1 and 2 over line in {f, f+1, f+2, f+3, f+40} x (end line - line) in {0, 1, 2, 300} x
 start column in {0, 7, 8, 79, 80, 127, 128, 300} x width in {0, 1, 15, 16, 47, 200}, ALL start-sorted
-triples over the reduced alphabet (span {0, 1, 300}, column {0, 80, 128}, width {0, 16, 200}), and
-length-50 lists alternating every reduced pair.  The table is installed in a real code object
+triples over the reduced alphabet (span {0, 1, 300}, column {0, 80, 128}, width {0, 16, 200}),
+length-50 lists alternating every reduced pair, and the varint family: every 6-bit chunk boundary
+v-1, v, v+1 for v in {32, 64, 2048, 4096} as line delta x end-line delta x start column x end column
+(columns also shifted by the +1 the format adds), alone, after a simple entry and followed by one.  The table is installed in a real code object
 (code.replace(co_linetable=..., co_firstlineno=f, co_code=n NOPs)) and `co_positions()` must return
 exactly the input list.  States = (encoding form of the previous entry, single/multi-line, form of the
 current entry) pairs reached; transitions = entries encoded and decoded.
@@ -30,6 +32,7 @@ TECHNIQUE = ('exhaustive start-sorted position lists through the real encoder, d
              'raise-site x nesting x function-kind x call-chain sweep of compiled tracebacks vs CPython')
 LEVEL_TEXT = ('All start-sorted position lists of length <= 2 over a 960-value boundary alphabet and all triples over a '
               '135-value sub-alphabet (every encoding form and every transition between forms, incl. multi-line spans) are '
+              'and every varint chunk boundary (31..33, 63..65, 2047..2049, 4095..4097) in line delta, end-line delta and both columns are '
               'encoded by the working-tree LineTable.py and decoded by CPython itself; the decoded list must equal the input.  '
               'About 1900 (quick; 11000 thorough, depth <= 3) compiled raising functions (nesting depth <= 2, every statement position, '
               '8 raise kinds, 7 function kinds, 3 call chains) must produce the same traceback (file, function, line) sequence as CPython, and their code '
@@ -49,6 +52,8 @@ WIDTHS = (0, 1, 15, 16, 47, 200)
 R_SPANS = (0, 1, 300)
 R_COLS = (0, 80, 128)
 R_WIDTHS = (0, 16, 200)
+VARINT_EDGES = [v + k for v in (32, 64, 2048, 4096) for k in (-1, 0, 1)]
+VARINT_COLS = [0] + sorted({v + k for v in (32, 64, 2048, 4096) for k in (-2, -1, 0, 1)})
 _TEMPLATE = (lambda: None).__code__
 
 
@@ -151,6 +156,21 @@ def _enc_job(arg):
                     p2 = mk(b, s2)
                     for s3 in red:
                         run([p1, p2, mk(c, s3)])
+    elif mode == 'varint':
+        # every 6-bit varint chunk boundary of the long form: the encoded values are (line delta << 1), the end-line
+        # delta and column + 1; v-1, v, v+1 for v in {32, 64, 2048, 4096} (and the +-1 shifted columns) in every field,
+        # after a simple first entry and followed by a simple entry (a mis-framed table garbles the follower)
+        deltas = [0, 3] + VARINT_EDGES
+        for d in deltas[lo:hi]:
+            for sp in [0] + VARINT_EDGES:
+                for c in VARINT_COLS:
+                    for ec in VARINT_COLS:
+                        if ec < c:
+                            continue
+                        p = (f + d, f + d + sp, c, ec)
+                        run([(f, f, 0, 1), p])
+                        run([(f, f, 0, 1), p, (f + d + 1, f + d + 1, 2, 3)])
+                        run([p])
     elif mode == 'long':
         combos = [(a, b) for a in LINES for b in LINES if a <= b]
         for (a, b) in combos[lo:hi]:
@@ -173,6 +193,7 @@ def part1(ctx):
         jobs += [('pairs', i, i + 1, f) for i in range(15)]
         jobs += [('triples', i, i + 1, f) for i in range(35)]
         jobs += [('long', i, i + 3, f) for i in range(0, 15, 3)]
+        jobs += [('varint', i, i + 2, f) for i in range(0, 14, 2)]
     if ctx.seed:
         k = ctx.seed % len(jobs)
         jobs = jobs[k:] + jobs[:k]
